@@ -350,7 +350,12 @@ func cmdCheck(args []string) int {
 	}
 	_ = os.MkdirAll(filepath.Join(verifDir, "evidence"), 0o755)
 	eb, _ := json.MarshalIndent(ev, "", " ")
-	_ = os.WriteFile(filepath.Join(verifDir, "evidence", prop+".json"), eb, 0o644)
+	evPath := filepath.Join(verifDir, "evidence", prop+".json")
+	if os.Getenv("KVC_REPO") != "" {
+		// a run against a scratch copy (mutant testing) must not overwrite the evidence of /repo
+		evPath = filepath.Join(cfg.workDir, "evidence_scratch.json")
+	}
+	_ = os.WriteFile(evPath, eb, 0o644)
 
 	// report
 	for _, l := range knownSeen {
